@@ -11,6 +11,15 @@ decoded here by small spec decoders, never by the model):
   O4 quiet windows (`note quiet-begin kind=glitch|stable ...`): no NETWORK event, cached pages stay cached
   O5 change windows (`note change-begin to=<nuid>`): exactly one NETWORK event, carrying <nuid>; pages gone afterwards
   O6 liveness      `note established`: the station was announced at all
+  O7 complete value  XDS network name / call letters: NETWORK_ID only when the previous name packet carried the same complete
+                   filtered string (a prefix is a different name), carrying that name, the call letters received last and
+                   the documented check-sum id; the same non-empty name twice in a row after a change IS announced.
+                   VPS PROG_ID: exactly the label of the triggering line, and the previous VPS line carried the same label
+                   in every field (CNI, PIL, PCS, PTY); 8/30 format 2 PROG_ID: exactly the label of the packet (LCI, LUF,
+                   PRF, PCS, MI, CNI, PIL, PTY), one event per valid packet.
+  O8 strfu / layout  `strfu <array> <text>` (xds_strfu on an exact-size heap array): result = comparison of the complete
+                   strings, array = text + terminator + untouched rest, `rej oob` exactly when it does not fit; `layout`:
+                   a 32-byte text fits name[] and call[], vbi_program_id has no padding.
 """
 import importlib.util, os, subprocess, sys
 sys.path.insert(0, os.path.join(os.path.dirname(os.path.abspath(__file__)), "..", "lib"))
@@ -75,11 +84,7 @@ class Table:
         return 0, True
 
 
-def xds_norm(bs):
-    i = 0
-    while i < len(bs) and bs[i] <= 0x20:
-        i += 1
-    return bytes(max(0x20, c) for c in bs[i:])
+xds_norm = nu.xds_filter
 
 
 class Rx:
@@ -95,7 +100,8 @@ class Rx:
             b = []
         if k == "v" and len(b) == 13:
             self.kind, self.value = "vps", nu.vps_cni_of(b)
-            self.extra["pid"] = [4, 1, self.value, ((b[8] & 0x3F) << 14) + (b[9] << 6) + (b[10] >> 2), 0, 1, 0, b[2] >> 6, b[12]]
+            d = nu.vps_pid_spec(b)      # channel VPS (4), CNI type VPS (1); LUF/PRF do not exist in VPS, MI is implied
+            self.extra["pid"] = [4, 1, d["cni"], d["pil"], 0, 1, 0, d["pcs"], d["pty"]]
         elif k == "w" and len(b) == 2:
             self.kind, self.value = "wss", (b[0], b[1])
         elif k == "n":
@@ -110,16 +116,25 @@ class Rx:
             if pm is None or (pm >> 3) != 30 or (pm & 15) != 0:
                 return
             des = unham8(b[2])
-            if des is None or des > 3:
+            if des is None or des > 4:
                 return
             if mask & nu.EV["TTX_PAGE"] and None in (unham16(b[3], b[4]), unham16(b[5], b[6]), unham16(b[7], b[8])):
                 return
-            if not mask & (nu.EV["NETWORK"] | nu.EV["NETWORK_ID"]):
+            bsd = bool(mask & (nu.EV["NETWORK"] | nu.EV["NETWORK_ID"]))
+            if des >= 2:
+                t = [unham16(b[8 + 2 * i], b[9 + 2 * i]) for i in range(7)]
+                if (not bsd or des == 4 or None not in t) and mask & nu.EV["PROG_ID"]:
+                    # the label of a format 2 packet (EN 300 231); designation 4 is reserved in EN 300 706 but
+                    # libzvbi treats everything from 2 up as format 2 (observation, see NOTES)
+                    d = nu.p8302_pid_spec(b)
+                    if d is not None:
+                        self.extra["pid"] = [d["lci"], 3, d["cni"], d["pil"], d["luf"], d["mi"], d["prf"], d["pcs"], d["pty"]]
+                        self.extra["pid_reserved"] = des == 4
+            if not bsd or des == 4:
                 return
             if des <= 1:
                 self.kind, self.value = "8301", REV8[b[9]] * 256 + REV8[b[10]]
             else:
-                t = [unham16(b[8 + 2 * i], b[9 + 2 * i]) for i in range(7)]
                 if None in t:
                     return
                 bb = [REV8[x] for x in t]
@@ -149,7 +164,7 @@ CARRIER_FIELD = {"vps": 3, "8301": 4, "8302": 5}   # index into net/nid event fi
 class C13(verif.Spec):
     prop = "C13"
     comp = "net"
-    lean_modules = ["ZvbiModel.Props.C13"]
+    lean_modules = ["ZvbiModel.Props.C13", "ZvbiModel.Props.C13Str"]
     harness = "net_harness"
     harness_link_lib = True
     partial_note = ("full for the debounce state machines of all carriers and for any station table; the XDS packet "
@@ -160,7 +175,8 @@ class C13(verif.Spec):
                    "(the C code compares doubles)",
                    "wss_rep_ct does not overflow (2^31 identical WSS words, F13)",
                    "XDS class 0/1 (programme aspect) packets are not fed, so prog_info[0].aspect changes only through WSS and reset"]
-    trusted_base = ["translate/gen_net.py (CNI table rows, event bits, XDS guard shape; rows and look-ups cross-checked against the compiled code)",
+    trusted_base = ["Net/XdsStr.lean extents nameSize / callSize / xdsMaxLen and the field list of vbi_program_id: compared with the compiled structs by the `layout` op on every run",
+                    "translate/gen_net.py (CNI table rows, event bits, XDS guard shape; rows and look-ups cross-checked against the compiled code)",
                     "harness/net_harness.c + lean/Driver/Net.lean (correspondence over vbi_decode incl. internal state dumps)",
                     "Codec model of C12 for the VPS / 8/30 field decoders (decodeVpsCni, decodeVpsPdc, decode8301LocalTime, decode8302Pdc)"]
     open_statements = []
@@ -182,6 +198,14 @@ class C13(verif.Spec):
             elif k < 0.86: plans.append(self.plan_timeout(rng))
             elif k < 0.94: plans.append(self.plan_gap(rng))
             else: plans.append(self.plan_random_history(rng))
+        # complete-value debounce: XDS names / call letters related by prefix, extension, one character; programme ids
+        # of VPS and 8/30 format 2 varying one field at a time; every carrier with pairs that differ in exactly one field
+        for i in range(260 if quick else 4000):
+            plans.append(self.plan_xds_names(rng))
+        for i in range(260 if quick else 4000):
+            plans.append(self.plan_pid(rng))
+        for i in range(240 if quick else 3000):
+            plans.append(self.plan_onefield(rng))
         for i in range(500 if quick else 6000):
             plans.append(self.plan_malformed(rng))
         pk = self.enc.run()
@@ -204,6 +228,9 @@ class C13(verif.Spec):
                             out.append(tk)
                     c.append("frame %d %s" % (t, " ".join(out)) if out else "frame %d" % t)
             cases.append(c)
+        # xds_strfu on raw destination arrays (stale bytes behind the terminator, all length relations) and the struct layout
+        for i in range(6 if quick else 60):
+            cases.append(["layout"] + [self.strfu_op(rng) for _ in range(250)])
         # table and look-up tie
         c = ["tbl %d" % i for i in range(len(self.tbl.rows) + 2)]
         cases.append(c)
@@ -484,6 +511,198 @@ class C13(verif.Spec):
             if rng.random() < 0.05: plan.append("state")
         return plan
 
+    # --- complete-value debounce -------------------------------------------------------------------
+    XDS_ALPHABET = [0x41, 0x41, 0x42, 0x42, 0x43, 0x20]
+
+    def xds_text(self, rng, n):
+        """n bytes the harness can put into an XDS packet (even offsets 0x20..0x7F, odd offsets 0x01..0x7F)"""
+        b = [rng.choice(self.XDS_ALPHABET) for _ in range(n)]
+        if n and rng.random() < 0.1:
+            i = rng.randrange(n)
+            b[i] = rng.randrange(0x01, 0x20) if i & 1 else 0x20        # a control code inside reads as a blank
+        return b
+
+    def xds_relative(self, rng, cur, maxlen=32):
+        """a text related to `cur`: the same, a proper prefix, an extension, one character changed, blanks in front,
+        a different text of the same length, or unrelated"""
+        k = rng.random()
+        n = len(cur)
+        if k < 0.30: new = list(cur)
+        elif k < 0.45 and n > 1: new = list(cur[:rng.randrange(1, n)])
+        elif k < 0.60 and n < maxlen: new = list(cur) + self.xds_text(rng, rng.randrange(1, min(4, maxlen - n) + 1))
+        elif k < 0.72 and n:
+            new = list(cur); i = rng.randrange(n); new[i] = new[i] ^ rng.choice([1, 2, 3]) if new[i] > 0x40 else 0x41
+        elif k < 0.78 and n < maxlen:
+            new = [0x20] * rng.randrange(1, min(3, maxlen - n) + 1) + list(cur)   # same text after the leading blanks are dropped
+        elif k < 0.84 and n: new = self.xds_text(rng, n)
+        elif k < 0.88: new = [0x20] * rng.randrange(1, 5)                       # blank: an empty name
+        else: new = self.xds_text(rng, rng.choice([1, 2, 3, 4, 5, 8, 15, 16, 31, 32, rng.randrange(1, maxlen + 1)]))
+        if not new: new = [0x41]
+        new = new[:maxlen]
+        for i in range(len(new)):          # keep it transmittable
+            lo = 0x01 if i & 1 else 0x20
+            if new[i] < lo: new[i] = 0x20
+        return new
+
+    def plan_xds_names(self, rng):
+        """XDS-only history: network names (and call letters) each related to its predecessor"""
+        t = [rng.randrange(1, 10 ** 6)]
+        def T():
+            t[0] += rng.choice([40000, 33367, 40000]); return t[0]
+        mask = rng.choice([nu.MASK_ALL, nu.MASK_ALL, nu.EV["NETWORK_ID"], nu.EV["NETWORK"] | nu.EV["NETWORK_ID"] | nu.EV["TTX_PAGE"],
+                           nu.EV["NETWORK"] | nu.EV["TTX_PAGE"]])
+        plan = ["mask %d" % mask, "note xds-names"]
+        name = self.xds_text(rng, rng.choice([1, 2, 3, 4, 4, 5, 8, 16, 31, 32, rng.randrange(1, 33)]))
+        call = self.xds_text(rng, rng.choice([3, 4, 4, 5]))
+        with_call = rng.random() < 0.4
+        pg = 0x100 + rng.randrange(8) * 0x100 + rng.randrange(10) * 16 + rng.randrange(10)
+        for i in range(rng.randrange(6, 30)):
+            k = rng.random()
+            if with_call and k < 0.2:
+                call = self.xds_relative(rng, call, 32)
+                plan.append(("frame", T(), ["c:" + hx(call)]))
+            elif k < 0.25:
+                plan.append(("frame", T(), rng.choice([[], ["p:%d" % pg], ["w:" + hx(nu.wss_word(rng.randrange(8)))]])))
+            else:
+                name = self.xds_relative(rng, name)
+                plan.append(("frame", T(), ["n:" + hx(name)]))
+            if rng.random() < 0.08: plan.append("state")
+            if rng.random() < 0.05: plan.append("cached %d" % pg)
+        plan.append("state")
+        return plan
+
+    def pid_step(self, rng, cur, stations, carrier):
+        """-> label derived from `cur` by changing exactly one transmitted field (or none)"""
+        new = dict(cur)
+        k = rng.random()
+        if k < 0.33:
+            new["cni"] = rng.choice([c for c in stations if c != cur["cni"]] or stations)
+        elif k < 0.60:
+            pass
+        else:
+            fields = ["pil", "pcs", "pty", "pty"] if carrier == "vps" else ["pil", "pcs", "pty", "luf", "prf", "mi", "lci"]
+            f = rng.choice(fields)
+            if f == "pil": new["pil"] ^= 1 << rng.randrange(20)
+            elif f == "pcs": new["pcs"] = (cur["pcs"] + rng.randrange(1, 4)) & 3
+            elif f == "pty": new["pty"] ^= 1 << rng.randrange(8)
+            elif f == "lci": new["lci"] = (cur["lci"] + rng.randrange(1, 4)) & 3
+            else: new[f] ^= 1
+        return new
+
+    def pid_line(self, rng, carrier, lab, fill):
+        if carrier == "vps":
+            return "v:" + hx(nu.vps_word(lab["cni"] & 0xFFF, pil=lab["pil"], pcs=lab["pcs"], pty=lab["pty"], fill=fill))
+        idx = self.enc.p8302(lab["cni"], pil=lab["pil"], pty=lab["pty"], lci=lab["lci"], luf=lab["luf"], prf=lab["prf"],
+                             pcs=lab["pcs"], mi=lab["mi"], designation=lab["des"])
+        return ("pk", idx, [(9, 0)])
+
+    def plan_pid(self, rng):
+        """programme ids: successive VPS lines / 8/30 format 2 packets that differ in exactly one field (or none),
+        PROG_ID handler registered; the CNI changes often because libzvbi looks at the VPS label when it
+        announces the station"""
+        t = [rng.randrange(1, 10 ** 6)]
+        def T():
+            t[0] += rng.choice([40000, 33367, 40000]); return t[0]
+        fam = rng.choice(["vps", "vps", "vps", "8302", "mixed"])
+        mask = rng.choice([nu.MASK_ALL, nu.MASK_ALL, nu.EV["PROG_ID"] | nu.EV["NETWORK_ID"], nu.EV["PROG_ID"] | nu.EV["NETWORK"] | nu.EV["NETWORK_ID"],
+                           nu.EV["PROG_ID"], nu.EV["PROG_ID"] | nu.EV["TTX_PAGE"]])
+        plan = ["mask %d" % mask, "note pid family=%s" % fam]
+        st, cur = {}, {}
+        for c in ("vps", "8302"):
+            st[c] = []
+            while len(st[c]) < 3:
+                v = self.pick_station(rng, [c], agree=rng.random() < 0.8)[c]
+                if v and v != 0x0DC3 and v not in st[c]: st[c].append(v)
+            cur[c] = {"cni": st[c][0], "pil": rng.choice([0x2B0C0, rng.randrange(1 << 20), 0xFFFFF, 0x07FFF]), "pcs": rng.randrange(4),
+                      "pty": rng.choice([0, 0xFF, rng.randrange(256)]), "luf": rng.randrange(2), "prf": rng.randrange(2),
+                      "mi": rng.randrange(2), "lci": rng.randrange(4), "des": 2 + rng.randrange(2)}
+        fill = [rng.randrange(256) for _ in range(13)] if rng.random() < 0.5 else [0] * 13
+        fill[2] &= 0x2F          # bit 0x10 of byte 2 only matters for the shared ARD/ZDF code
+        for i in range(rng.randrange(8, 32)):
+            c = fam if fam != "mixed" else rng.choice(["vps", "8302"])
+            if i: cur[c] = self.pid_step(rng, cur[c], st[c], c)
+            plan.append(("frame", T(), [self.pid_line(rng, c, cur[c], fill)]))
+            if rng.random() < 0.06: plan.append("state")
+        plan.append("state")
+        return plan
+
+    def plan_onefield(self, rng):
+        """one carrier; every reception repeats its predecessor, differs from it in exactly one bit / character of the
+        debounced value (everything else in the line constant), or goes back to the station's value"""
+        t = [rng.randrange(1, 10 ** 6)]
+        def T():
+            t[0] += rng.choice([40000, 33367, 40000]); return t[0]
+        c = rng.choice(["vps", "8301", "8302", "wss", "xdsname", "xdscall"])
+        plan = ["mask %d" % nu.MASK_ALL, "note onefield carrier=%s" % c]
+        if c in ("vps", "8301", "8302"):
+            bits = 12 if c == "vps" else 16
+            while True:
+                A = self.pick_station(rng, [c], agree=rng.random() < 0.8)[c]
+                if A != 0x0DC3: break
+            lab = {"pil": rng.randrange(1 << 20), "pcs": rng.randrange(4), "pty": rng.randrange(256), "luf": 0, "prf": 0, "mi": 1,
+                   "lci": rng.randrange(4), "des": 2 + rng.randrange(2)}
+            tm = dict(hh=rng.randrange(24), mm=rng.randrange(60), ss=rng.randrange(60), lto=rng.randrange(8), neg=rng.randrange(2),
+                      designation=rng.randrange(2))
+            def line(v):
+                if c == "vps": return self.pid_line(rng, "vps", dict(lab, cni=v), [0] * 13)
+                if c == "8302": return self.pid_line(rng, "8302", dict(lab, cni=v), None)
+                return ("pk", self.enc.p8301(v, **tm), [(9, 0)])
+            v = A
+            for i in range(rng.randrange(8, 30)):
+                k = rng.random()
+                if k < 0.5: pass
+                elif k < 0.8:
+                    w = v ^ (1 << rng.randrange(bits))
+                    if w != 0x0DC3: v = w
+                else: v = A
+                plan.append(("frame", T(), [line(v)]))
+        elif c == "wss":
+            w = nu.wss_word(rng.randrange(8), rng.randrange(2), rng.randrange(4), rest=rng.randrange(1 << 14))
+            A = list(w)
+            for i in range(rng.randrange(10, 40)):
+                k = rng.random()
+                if k < 0.7: pass
+                elif k < 0.9: w = list(w); w[rng.randrange(2)] ^= 1 << rng.randrange(8)
+                else: w = list(A)
+                plan.append(("frame", T(), ["w:" + hx(w)]))
+        else:
+            name = self.xds_text(rng, rng.choice([1, 2, 4, 5, 8, 31, 32]))
+            other = self.xds_text(rng, 4)
+            if c == "xdscall":       # call letters have no debounce of their own: they take part through the name's
+                plan.append(("frame", T(), ["n:" + hx(other)]))
+            for i in range(rng.randrange(8, 30)):
+                k = rng.random()
+                if k < 0.5: pass
+                else:
+                    j = rng.random()
+                    if j < 0.4 and name:
+                        name = list(name); i2 = rng.randrange(len(name)); name[i2] = 0x41 + ((name[i2] + 1) % 3)
+                    elif j < 0.7 and len(name) > 1: name = name[:-1]
+                    elif len(name) < 32: name = name + [rng.choice([0x41, 0x42, 0x43])]
+                plan.append(("frame", T(), [("n:" if c == "xdsname" else "c:") + hx(name)]))
+                if c == "xdscall" and rng.random() < 0.5:
+                    plan.append(("frame", T(), ["n:" + hx(other)]))
+        plan.append("state")
+        return plan
+
+    def strfu_op(self, rng):
+        """`strfu <array> <received bytes>`: array = stored text, NUL, stale bytes; received text related to the stored one"""
+        size = rng.choice([64, 64, 40, 40, 33, rng.randrange(1, 12)])
+        stored = self.xds_text(rng, rng.randrange(0, min(size, 33)))
+        stored = [max(0x20, x) for x in stored]
+        if rng.random() < 0.05 and stored: stored[rng.randrange(len(stored))] = rng.choice([0x80, 0xC9, 0xFF])   # a Latin-1 station name from the CNI table
+        arr = stored + [0]
+        while len(arr) < size:
+            arr.append(rng.choice([0, 0, 0x41, 0x42, 0x43, 0x20, rng.randrange(256)]))
+        arr = arr[:size]
+        if rng.random() < 0.03: arr = [rng.choice([0x41, 0x42]) for _ in range(size)]     # no terminator at all
+        src = self.xds_relative(rng, stored or [0x41]) if rng.random() < 0.9 else []
+        k = rng.random()
+        if k < 0.08: src = [rng.choice([0x00, 0x01, 0x1F, 0x20])] * rng.randrange(0, 4) + src
+        elif k < 0.12: src = [rng.randrange(256) for _ in range(rng.randrange(0, 33))]          # 8-bit bytes: correspondence only
+        src = src[:32]
+        return "strfu %s %s" % (hx(arr), hx(src))
+
     def plan_malformed(self, rng):
         t = [rng.randrange(0, 10 ** 6)]
         plan = []
@@ -529,8 +748,10 @@ class C13(verif.Spec):
         for l in case[:3]:
             if l.startswith("note station"):
                 return "station:" + (l.split()[3] if len(l.split()) > 3 else "?").split("=")[0] + ("-multi" if "multi" in l else "")
-        if case and case[0].startswith(("tbl", "lookup")):
+        if case and case[0].startswith(("tbl", "lookup", "layout", "strfu")):
             return case[0].split()[0]
+        if len(case) > 1 and case[1].startswith("note ") and case[1].split()[1] in ("xds-names", "pid", "onefield"):
+            return case[1].split()[1]
         if not self.regular(case):
             return "malformed"
         return "history"
@@ -560,6 +781,8 @@ class C13(verif.Spec):
             return "output count %d != ops %d" % (len(out), len(case))
         if case and case[0].split()[0] in ("tbl", "lookup"):
             return self.oracle_table(case, out)
+        if case and case[0].split()[0] in ("layout", "strfu"):
+            return self.oracle_strfu(case, out)
         if not self.regular(case):
             return None
         if any(o.startswith("rej") for o in out):
@@ -579,6 +802,12 @@ class C13(verif.Spec):
         expect_uncached = False
         pending_reset = False  # vbi_channel_switched called: the next frame resets
         seen_vps_pid = set()   # programme ids VPS lines carried so far
+        prev_vps_pid = None    # complete programme id of the previous VPS reception
+        other_cycle = False    # a carrier other than VPS took part in the shared debounce (8/30 CNI, XDS): VPS PROG_ID judged by "seen before" only
+        ebu_seen = False       # some VPS / 8/30 CNI reception so far (XDS liveness is judged on XDS-only histories)
+        xcall = b""            # call letters as last received since the decoder forgot everything
+        xrun = 0               # equal XDS names received in a row (since the last call-letter change / reset)
+        xpending = False       # an XDS name or the call letters changed since the last NETWORK_ID
         expect_cached = False
         gap_seen = False       # a time-stamp gap armed the countdown: a time-out reset may follow
         last_t = None
@@ -654,13 +883,21 @@ class C13(verif.Spec):
             if head_reset:
                 prev, hist_wss, dirty, last_aspect, nuid, pending_reset = {}, [], False, None, 0, False
                 gap_seen = False
+                xcall, xrun, xpending = b"", 0, False
             # --- receptions of this frame ------------------------------------------------------------
             cands = []         # (rx, repeated?)
             frame_dirty = dirty
             first_rep, dev_after = None, False   # position of the first line that may announce; deviation after it
             wss_rx, wss_pos, last_id_pos = None, None, None
+            xname_rx = None
             for pos, r in enumerate(rxs):
+                if r.kind == "vps":
+                    r.extra["prev_pid"] = prev_vps_pid
+                    prev_vps_pid = r.extra["pid"]
+                if r.kind in ("8301", "8302", "xdsname", "xdscall"):
+                    other_cycle = True
                 if r.kind in ("vps", "8301", "8302"):
+                    ebu_seen = True
                     p = prev.get(r.kind)
                     rep = (p == r.value) or (p is None and r.value == 0)
                     if not rep:
@@ -669,17 +906,24 @@ class C13(verif.Spec):
                     elif first_rep is None: first_rep = pos
                     cands.append((r, rep)); prev[r.kind] = r.value; last_id_pos = pos
                 elif r.kind == "xdsname":
-                    rep = prev.get("xdsname") == r.value
+                    rep = prev.get("xdsname", b"") == r.value
                     if not rep:
                         frame_dirty = True
+                        xrun, xpending = 1, True
                         if first_rep is not None: dev_after = True
-                    elif first_rep is None: first_rep = pos
+                    else:
+                        xrun += 1
+                        if first_rep is None: first_rep = pos
+                    r.extra["call"] = xcall
                     cands.append((r, rep)); prev["xdsname"] = r.value; last_id_pos = pos
+                    xname_rx = r
                 elif r.kind == "xdscall":
                     if prev.get("xdscall", b"") != r.value:
                         frame_dirty = True
+                        xrun, xpending = 0, True
                         if first_rep is not None: dev_after = True
                     prev["xdscall"] = r.value
+                    xcall = r.value
                 elif r.kind == "wss":
                     wss_rx, wss_pos = r, pos
             # --- F17 shape: identified station replaced by an unknown CNI -> state wiped, NETWORK twice, zeros announced
@@ -695,7 +939,14 @@ class C13(verif.Spec):
                     if not rep:
                         continue
                     if r.kind == "xdsname":
-                        if bytes.fromhex(f[1] if f[1] != "-" else "") == r.value: ok = True
+                        if bytes.fromhex(f[1] if f[1] != "-" else "") == r.value:
+                            call = bytes.fromhex(f[2] if f[2] != "-" else "")
+                            if not ebu_seen and call != r.extra["call"]:
+                                why = "faithful-xds: NETWORK_ID carries call letters %r, last received were %r" % (call, r.extra["call"])
+                            elif not ebu_seen and int(f[0]) != nu.xds_nuid(r.extra["call"] or r.value):
+                                why = "faithful-xds: NETWORK_ID nuid %s is not the check sum of the call letters / name received" % f[0]
+                            else:
+                                ok = True
                     elif int(f[CARRIER_FIELD[r.kind]]) == r.value:
                         want, defined = self.tbl.lookup(r.kind, r.value)
                         if defined and int(f[0]) != want:
@@ -713,6 +964,14 @@ class C13(verif.Spec):
             dirty = (dev_after if nids else frame_dirty) if has_nid else False
             if nids or (toks and nets):
                 established = True
+            # --- XDS liveness: the same non-empty name twice in a row after a change must be announced --------
+            if xname_rx is not None and len(toks) == 1 and has_nid and not ebu_seen:
+                if nids:
+                    xpending = False
+                elif xrun >= 2 and xpending and xname_rx.value != b"":
+                    return "liveness-xds: network name %r received twice in a row after a change, not announced" % xname_rx.value
+            elif nids:
+                xpending = False
             # --- NETWORK: windows, reset bookkeeping -----------------------------------------------------
             line_reset = False
             if toks and nets and has_nid and not nids:
@@ -740,19 +999,35 @@ class C13(verif.Spec):
             if wss_rx is not None:
                 if not line_reset or (last_id_pos is not None and wss_pos > 0):
                     hist_wss.append(wss_rx.value)
-            # --- PROG_ID faithful; from VPS only after the same programme id was received before ------------
+            # --- PROG_ID: exactly the label of the triggering line; from VPS only when the previous VPS line carried
+            #     the same complete label (VPS has no error protection); 8/30 format 2 is Hamming protected, every
+            #     valid packet is announced -----------------------------------------------------------------------
+            npid = {"vps": 0, "830": 0}
             for tg, f in evs:
                 if tg == "pid":
-                    good, twice = False, False
-                    for r in rxs:
-                        if r.kind == "vps" and [int(x) for x in f] == r.extra["pid"]:
-                            good = True
-                            if tuple(r.extra["pid"]) in seen_vps_pid: twice = True
-                        if r.kind in ("8302", "other") and f[1] == "3": good = twice = True
-                    if not good:
-                        return "faithful: PROG_ID %s matches no line of the frame" % ":".join(f)
-                    if not twice and f[1] == "1" and len(toks) == 1:
-                        return "needs-repeat: VPS PROG_ID for a programme id no earlier VPS line carried"
+                    if f and f[-1] == "dirty":
+                        return "faithful-pid: PROG_ID record has non-zero reserved members"
+                    vals = [int(x) for x in f]
+                    src = [r for r in rxs if r.extra.get("pid") == vals]
+                    if not src:
+                        return "faithful-pid: PROG_ID %s is the label of no line of the frame" % ":".join(f)
+                    if vals[1] == 1:
+                        npid["vps"] += 1
+                        if not other_cycle:
+                            if not any(r.extra.get("prev_pid") == vals for r in src):
+                                return "needs-repeat-pid: VPS PROG_ID %s, the previous VPS line carried %s" % (
+                                    ":".join(f), ":".join(str(x) for x in (src[0].extra.get("prev_pid") or [])) or "nothing")
+                        elif tuple(vals) not in seen_vps_pid and len(toks) == 1:
+                            return "needs-repeat-pid: VPS PROG_ID for a programme id no earlier VPS line carried"
+                    else:
+                        npid["830"] += 1
+            if len(toks) == 1 and mask & nu.EV["PROG_ID"]:
+                r = rxs[0]
+                if r.kind != "vps" and "pid" in r.extra and not r.extra.get("pid_reserved") and npid["830"] != 1:
+                    return "liveness-pid: valid packet 8/30 format 2, %d PROG_ID events" % npid["830"]
+                if r.kind == "vps" and not other_cycle and not head_reset and has_nid and nids and npid["vps"] == 0 \
+                        and r.extra.get("prev_pid") == r.extra["pid"]:
+                    return "liveness-pid: station announced by a VPS line whose label equals the previous line's, no PROG_ID"
             for r in rxs:
                 if r.kind == "vps": seen_vps_pid.add(tuple(r.extra["pid"]))
             # --- ASPECT: O1, O2, O3 ------------------------------------------------------------------------
@@ -787,6 +1062,34 @@ class C13(verif.Spec):
                 return "glitch-multi-ids-%s: %s after a single deviating word between identical ones (interleaved carriers)" % (a.get("ids"), what)
             return "glitch-%s: %s after a single deviating word between identical ones" % (a.get("carrier"), what)
         return "stable-window: %s while the same values keep arriving" % what
+
+    def oracle_strfu(self, case, out):
+        """storing a received text: the array holds the filtered text, `changed` is the comparison of the complete
+        strings, nothing outside the text and its terminator is written, and a text of up to 32 bytes fits both arrays"""
+        for op, o in zip(case, out):
+            w = op.split()
+            if w[0] == "layout" and len(w) == 1:
+                try:
+                    v = dict(x.split("=") for x in o.split()[1:])
+                    if int(v["xdsbuf"]) + 1 > min(int(v["name"]), int(v["call"])):
+                        return "extent: an XDS text of %s bytes and its terminator do not fit name[%s] / call[%s]" % (v["xdsbuf"], v["name"], v["call"])
+                    if int(v["pidpad"]) != 0 or int(v["pidfields"]) != 9:
+                        return "extent: vbi_program_id has padding or other members than the nine transmitted fields before tape_delayed"
+                except (ValueError, KeyError, IndexError):
+                    return "extent: layout line unreadable: %s" % o
+            elif w[0] == "strfu" and len(w) == 3:
+                try:
+                    d = list(bytes.fromhex(w[1])) if w[1] != "-" else []
+                    src = list(bytes.fromhex(w[2])) if w[2] != "-" else []
+                except ValueError:
+                    continue
+                if any(c > 0x7F for c in src):
+                    continue                    # not transmittable (7-bit characters); the correspondence covers it
+                want = nu.strfu_spec(d, src)
+                exp = "rej oob" if want is None else "ok %d %s" % (1 if want[0] else 0, hx(want[1]))
+                if o != exp:
+                    return "strfu: stored %s, received %s: code says '%s', string semantics say '%s'" % (w[1], w[2], o, exp)
+        return None
 
     def oracle_table(self, case, out):
         for op, o in zip(case, out):
